@@ -166,6 +166,7 @@ def run(ctx):
             vlib.require_actions_covered(r)
             ctx.tlc_check("consensus", "MCWal.tla", "Wal_thorough.cfg", timeout=3000)
             ctx.tlc_check("consensus", "MCWal.tla", "Wal_refs_thorough.cfg", timeout=3000)
+            ctx.tlc_check("consensus", "MCWal.tla", "Wal_refs_thorough2.cfg", timeout=3000)
             m = ctx.tlc_check("consensus", "MCWal.tla", "Wal_refs_x_entry.cfg", timeout=900, expect_violation=True,
                               label="design mutant: one log reference per entry (never released completely)")
             if m["ok"] or m["violated"] != "CleanupRemovesDead":
@@ -211,7 +212,15 @@ def run(ctx):
                                                            "selftest": True}, timeout=600)
         if not st_res.get("divergences"):
             raise vlib.Broken("selftest: the replayer accepted a corrupted expectation")
-        ctx.coverage["selftest"] = "corrupted expectation rejected"
+        victim = next((b for b in refb if any(s["a"]["name"] == "SyncOk" and s["pc"] == "idle" and s["files"]
+                                               for s in b["steps"])), None)
+        if victim is None:
+            raise vlib.Broken("selftest: no reference-count behaviour with a committed batch")
+        st_res = ctx.run_engine(binary, "TestWalReplay", {"interval": MODEL_INTERVAL, "behaviours": [victim],
+                                                           "selftest_files": True}, timeout=600)
+        if not any(d.get("key", "").startswith("wal-files:") for d in st_res.get("divergences") or []):
+            raise vlib.Broken("selftest: the replayer accepted a corrupted directory listing")
+        ctx.coverage["selftest"] = "corrupted expectation rejected; corrupted directory listing rejected"
 
     ctx.coverage["behaviours_generated"] = len(behaviours)
     ctx.coverage["steps_replayed"] = res.get("steps", 0)
